@@ -50,6 +50,8 @@ func e1Obligations(p *Prog, r *Report, rule string, kinds map[string]bool) {
 // Frozen allow-list of blocking operations under a mutex (DESIGN 3.4/E4a).  Each entry
 // names the function, the operation and why it cannot block indefinitely.
 var c12Allow = []allowEntry{
+	{Fn: "internal/core.(*listener).Listen", Match: "net..DialTimeout", NotOS: "windows",
+		Reason: "the core listener lock is held across the transport's Listen on purpose (so that Close cannot interleave with the bind); the ipc transport probes a stale socket file with a 100 ms DialTimeout, which bounds the wait of a concurrent Close or second Listen on the same listener"},
 	{Fn: "protocol/sub.(*pipe).receiver", Match: "chan-send: send on next(range(recv.s.ctxs))#1.recvQ",
 		Reason: "re-send after making room in a buffered queue; only holders of the socket lock send to it (capacity >= 1 is obligation C19.2/E10c)"},
 	{Fn: "protocol/sub.(*context).unsubscribe", Match: "chan-send: send on recv.recvQ",
@@ -172,5 +174,26 @@ func c12Endpoints(p *Prog, r *Report) {
 			}
 		}
 		q.Req(R, f.Name, bad == "" && nerr > 0, f.Pos(), fmt.Sprintf("%d error returns, none after a spawn or close", nerr), "failed Listen is not retryable: "+bad)
+	}
+}
+
+// lockBalance: E1 restricted to the packages a property's mechanism lives in.  A lock
+// left held on some path wedges every later operation of that socket, so it is a
+// necessary condition of each behavioural property, not only of C12.
+func lockBalance(p *Prog, r *Report, rule string, rels ...string) {
+	r.Describe(rule, "lock typestate (E1) in "+strings.Join(rels, ", ")+": every path releases the locks it took (a lock left held wedges every later operation on the socket)")
+	in := map[string]bool{}
+	for _, x := range rels {
+		in[x] = true
+	}
+	nb := 0
+	for _, is := range p.E1().issues {
+		if rel, _ := p.FuncRel(is.Fn); in[rel] && p.InScope(is.Fn) {
+			nb++
+			r.Bad(rule, p.FuncName(is.Fn)+"/"+is.Kind+"/"+is.Lock.Path, p.InstrPos(is.In), is.Msg, is.Wit...)
+		}
+	}
+	if nb == 0 {
+		r.OK(rule, strings.Join(rels, ","), "-", "no lock typestate issue")
 	}
 }
